@@ -4,7 +4,16 @@ pub struct Rng(pub u64);
 
 impl Rng {
     pub fn new(seed: u64) -> Self {
-        Rng(seed.wrapping_mul(0x9E37_79B9_7F4A_7C15).wrapping_add(0x1234_5678_9ABC_DEF1))
+        // The state is a non-linear hash of the seed: with a linear map, seeds s and s+1 would
+        // give the same SplitMix stream shifted by one call.
+        let mut z = seed.wrapping_add(0x1234_5678_9ABC_DEF1);
+        for _ in 0..2 {
+            z = (z ^ (z >> 30)).wrapping_mul(0xBF58_476D_1CE4_E5B9);
+            z = (z ^ (z >> 27)).wrapping_mul(0x94D0_49BB_1331_11EB);
+            z ^= z >> 31;
+            z = z.wrapping_add(0x9E37_79B9_7F4A_7C15);
+        }
+        Rng(z)
     }
     pub fn next_u64(&mut self) -> u64 {
         self.0 = self.0.wrapping_add(0x9E37_79B9_7F4A_7C15);
